@@ -32,6 +32,11 @@ def honest_equalities(ctx):
         s = CC.gen(rng, "ps" if i % 2 else "bbs", n_creds=n, kinds=["eq", "comm"], eq_shape=["chain", "star", "one", "chain_rev", "star_last", "mixed"][i % 6])
         if not any(st["k"] == "eq" for st in s["stmts"]):
             continue
+        if i % 2:
+            # identical signed values need not be identical claims: the same bytes as text in one credential, as opaque bytes in the next
+            for ci, cr in enumerate(s["creds"]):
+                if ci % 2 and cr["claims"][1]["t"] == "h":
+                    cr["claims"][1] = dict(cr["claims"][1], pf=not cr["claims"][1].get("pf", False))
         cs.append(s)
     out = []
     for s, r in zip(cs, C.run_exec_parallel(cs, nproc=16) if len(cs) >= 64 else [C.run_exec([c])[0] for c in cs]):
